@@ -41,6 +41,7 @@ type attempt struct {
 }
 
 type mstate struct {
+	attN   int // event number of the AppHash call of the attempt whose queue is installed
 	active bool
 	key    string
 	h      uint64
@@ -64,7 +65,7 @@ func (s *mstate) clone() *mstate {
 
 func (s *mstate) id() string {
 	var sb strings.Builder
-	fmt.Fprintf(&sb, "%v|%s|%v|%v|%d|", s.active, s.key, s.slot, s.ret, s.rej)
+	fmt.Fprintf(&sb, "%d|%v|%s|%v|%v|%d|", s.attN, s.active, s.key, s.slot, s.ret, s.rej)
 	for _, st := range s.steps {
 		fmt.Fprintf(&sb, "%s.%d.%d.%v;", st.op, st.idx, st.peer, st.keep)
 	}
@@ -159,6 +160,9 @@ func (m *model) applyStep(s *mstate, st mstep) {
 	case "uninstall":
 		s.active = false
 	case "install":
+		if st.att != nil {
+			s.attN = st.att.callN
+		}
 		if st.keep && st.att != nil && st.att.offer != nil && st.att.key == s.key {
 			s.active = true
 			return
@@ -217,13 +221,19 @@ func (m *model) closure(set map[string]*mstate) map[string]*mstate {
 			m.applyStep(c, st)
 			succ = append(succ, c)
 		}
+		// in order per peer and per path: what a liar sent over its connection is processed in send order;
+		// chunks handed to the reactor directly (concurrent batches) are not ordered with those
 		seenPeer := map[int]bool{}
 		for _, id := range s.pend {
 			a := m.arr[id]
-			if seenPeer[a.peer] {
+			k := a.peer * 2
+			if a.inj {
+				k++
+			}
+			if seenPeer[k] {
 				continue
 			}
-			seenPeer[a.peer] = true
+			seenPeer[k] = true
 			succ = append(succ, m.arrive(s, a)...)
 		}
 		for _, c := range succ {
@@ -332,6 +342,27 @@ func (m *model) run(strict bool) *modelFail {
 					}
 					return nil
 				}
+				// an attempt that ended without an event of its own (the syncer's two-minute wait for a
+				// chunk ran out): the queue of the attempt that starts here replaces the old one
+				ns := map[string]*mstate{}
+				for _, s := range set {
+					if s.attN != e.N {
+						c := s.clone()
+						m.applyStep(c, mstep{op: "uninstall"})
+						var att *attempt
+						for _, a := range m.attempts {
+							if a.callN == e.N {
+								att = a
+							}
+						}
+						m.applyStep(c, mstep{op: "install", att: att})
+						c.attN = e.N
+						ns[c.id()] = c
+					} else {
+						ns[s.id()] = s
+					}
+				}
+				set = ns
 			}
 		case "sp-ret":
 			if !e.OK {
